@@ -261,6 +261,7 @@ impl Disk {
     /// plus, if operation `k` is a write, its first `cut` bytes.
     pub fn crash_state(initial: &Disk, journal: &[Op], k: usize, cut: usize) -> Disk {
         let mut d = initial.clone();
+        let k = k.min(journal.len());
         for op in &journal[..k] {
             d.apply(op);
         }
